@@ -131,19 +131,18 @@ class XsdAssert(XsdComponent, ElementPathMixin[Union['XsdAssert', SchemaElementT
         if value is not None:
             value = self.base_type.text_decode(value, context=context)
 
-        xpath_context = XPathContext(
-            root=context.source.get_xpath_node(obj),
-            namespaces=context.namespaces,
-            uri=context.source.url,
-            fragment=True,
-            variables={'value': value},
-            schema=self.parser.schema,
-        )
-
         try:
+            xpath_context = XPathContext(
+                root=context.source.get_xpath_node(obj),
+                namespaces=context.namespaces,
+                uri=context.source.url,
+                fragment=True,
+                variables={'value': value},
+                schema=self.parser.schema,
+            )
             if not self.token.evaluate(xpath_context):
                 context.validation_error(validation, self, "assertion test is false", obj)
-        except ElementPathError as err:
+        except (ElementPathError, ValueError) as err:
             context.validation_error(validation, self, err, obj)
 
     # For implementing ElementPathMixin
